@@ -445,10 +445,22 @@ func (e *Extractor) invokeXObject(name string) error {
 		}
 	}
 
-	// Register fonts from XObject's resources
+	// Register fonts from XObject's resources. Resource names are local to the
+	// form: its /F1 may be another font than the page's /F1, so the caller's
+	// fonts are put back when the form ends.
+	var savedFonts map[string]*font.Font
 	if xobjResources != nil {
+		savedFonts = make(map[string]*font.Font, len(e.fonts))
+		for k, v := range e.fonts {
+			savedFonts[k] = v
+		}
 		if err := e.RegisterFontsFromResources(xobjResources, e.resolver); err != nil {
 			// Non-fatal - continue with existing fonts
+		}
+	}
+	restoreFonts := func() {
+		if savedFonts != nil {
+			e.fonts = savedFonts
 		}
 	}
 
@@ -478,6 +490,7 @@ func (e *Extractor) invokeXObject(name string) error {
 	if err != nil {
 		// Restore state and return error
 		e.resources = oldResources
+		restoreFonts()
 		e.xobjectDepth--
 		e.gs.Restore()
 		return fmt.Errorf("failed to parse XObject content: %w", err)
@@ -492,6 +505,7 @@ func (e *Extractor) invokeXObject(name string) error {
 
 	// Restore state
 	e.resources = oldResources
+	restoreFonts()
 	e.xobjectDepth--
 	e.gs.Restore()
 
